@@ -408,12 +408,12 @@ type opPlan struct {
 	until      int64
 	kind       string
 	// adversarial deviations
-	signWith     *workload.Key
-	revealOf     *workload.Key
-	corruptSig   bool
-	tamper       string
+	signWith   *workload.Key
+	revealOf   *workload.Key
+	corruptSig bool
+	tamper     string
 	// hdrOrder: the signer wrote its protected header with "kid" before "alg" (and signed exactly that)
-	hdrOrder bool
+	hdrOrder     bool
 	signedSuffix string
 }
 
@@ -1970,7 +1970,21 @@ func (w *aWorld) oraclePermutations(rm *protocol.ResolutionModel, err error) {
 		if len(extra) > 0 {
 			w.k.Count("probe:history-partly-as-additional-operations")
 
+			// the store may be one that hands out its own slice: what it holds must be the same before and after a
+			// resolution that was given additional operations
+			tmp.Shared = w.k.T.Draw(2, "perm.additional.shared") == 0
+			storeOnly := processor.New("split-store-only", tmp, w.pc)
+			rmB, errB := w.resolve(storeOnly)
+			before := dump(rmB, errB, true)
+
 			rm4, err4 := w.resolve(processor.New("split", tmp, w.pc, processor.WithUnpublishedOperationStore(w.unpub)), document.WithAdditionalOperations(extra))
+
+			if rmA, errA := w.resolve(storeOnly); dump(rmA, errA, true) != before {
+				w.fail("C02", "additional-operations/store-changed", fmt.Sprintf("a resolution that was given %d additional operations changed what later resolutions of the same store return (the store hands out its own slice):\n before: %s\n after:  %s", len(extra), before, dump(rmA, errA, true)))
+
+				return
+			}
+
 			if d := dump(rm4, err4, true); d != base {
 				w.fail("C02", "additional-operations", fmt.Sprintf("supplying %d of the %d anchored operations through the additional-operations option instead of the store changes the result:\n store only: %s\n split:      %s", len(extra), len(pub), base, d))
 
